@@ -1,16 +1,565 @@
 import CoolerModel.Model.Selectors
 /-!
 # C14 — table selectors and bin annotation return the rows and coordinates asked for
+
+Every statement is about the definitions of `Model/Selectors.lean`, which the correspondence harness
+(`harness/c14.py`) executes against `Cooler.chroms()/bins()/pixels()[…]`, `cooler.annotate` and
+`_IndexingMixin._process_slice`.
 -/
 namespace Cooler.C14
 open Cooler Cooler.Tbl
 
-/-- **processSlice_spec** -/
+/-! ## 1. Subscripts -/
+
+/-- **processSlice_spec** — for bounds in `[-n, n] ∪ {None}` the code's un-clamped normalisation is
+Python's `slice(lo, hi).indices(n)[:2]` (the explicit clamping formula `clampBound`), and both ends lie
+in `[0, n]`. -/
 theorem processSlice_spec (n : Nat) (lo hi : Option Int) (hlo : InDom n lo) (hhi : InDom n hi) :
     processSlice n lo hi = (((pySliceIndices n lo hi).1 : Int), ((pySliceIndices n lo hi).2 : Int))
     ∧ (pySliceIndices n lo hi).1 ≤ n ∧ (pySliceIndices n lo hi).2 ≤ n := by
   cases lo <;> cases hi <;>
     simp only [processSlice, pySliceIndices, normBound, clampBound, InDom] at * <;>
     (repeat' split) <;> (refine ⟨?_, ?_, ?_⟩ <;> first | omega | (ext <;> simp <;> omega) | (simp; omega))
+
+example : InDom 5 (some (-5)) ∧ InDom 5 none ∧ processSlice 5 (some (-2)) none = (3, 5) := by decide
+
+/-- outside the domain the code really does not clamp (the observation recorded in DESIGN §6) -/
+example : processSlice 8 (some (-9)) none = (-1, 8) ∧ pySliceIndices 8 (some (-9)) none = (0, 8) := by
+  decide
+
+/-- **processScalar_spec** — a scalar `k ∈ [-n, n)` selects the one row `k' = k mod n`;
+`k ≥ n` is an `IndexError`. -/
+theorem processScalar_spec (n : Nat) (k : Int) :
+    (-(n : Int) ≤ k → k < n →
+      processScalar n k = .ok ((if k < 0 then k + n else k), (if k < 0 then k + n else k) + 1)
+      ∧ 0 ≤ (if k < 0 then k + n else k) ∧ (if k < 0 then k + n else k) < n)
+    ∧ ((n : Int) ≤ k → processScalar n k = .error .index) := by
+  constructor
+  · intro h1 h2
+    unfold processScalar
+    by_cases hk : k < 0 <;> simp only [hk, if_true, if_false] <;>
+      (refine ⟨?_, ?_, ?_⟩ <;> first | omega | (rw [if_neg (by omega)]))
+  · intro h
+    unfold processScalar
+    have hk : ¬ k < 0 := by omega
+    simp only [hk, if_false]
+    rw [if_pos (by omega)]
+
+example : processScalar 4 (-1) = .ok (3, 4) ∧ processScalar 4 4 = .error .index := by decide
+
+/-- a slice key in the domain is read as the Python slice it spells -/
+theorem processKey_slice (n : Nat) (lo hi : Option Int) (hlo : InDom n lo) (hhi : InDom n hi) :
+    processKey n (.slice lo hi none) =
+      .ok (((pySliceIndices n lo hi).1 : Int), ((pySliceIndices n lo hi).2 : Int)) := by
+  simp only [processKey, true_or, if_true]
+  rw [(processSlice_spec n lo hi hlo hhi).1]
+
+/-! ## 2. List helpers -/
+
+theorem labels_length (l0 : Int) (n : Nat) : (labels l0 n).length = n := by simp [labels]
+
+theorem labels_getElem? (l0 : Int) (n k : Nat) :
+    (labels l0 n)[k]? = if k < n then some (l0 + (k : Int)) else none := by
+  unfold labels
+  by_cases h : k < n
+  · simp [h]
+  · simp only [h, if_false]
+    exact List.getElem?_eq_none (by simp; omega)
+
+theorem getElem?_drop_take {α} (l : List α) (a k i : Nat) :
+    ((l.drop a).take k)[i]? = if i < k then l[a + i]? else none := by
+  rw [List.getElem?_take]
+  by_cases h : i < k <;> simp [h, List.getElem?_drop]
+
+/-- `l[a:b]` read through Python's clamping equals the plain `drop`/`take` -/
+theorem drop_take_clamp {α} (l : List α) (a b : Nat) :
+    (l.drop (min a l.length)).take (min b l.length - min a l.length) = (l.drop a).take (b - a) := by
+  apply List.ext_getElem?
+  intro i
+  rw [getElem?_drop_take, getElem?_drop_take]
+  by_cases ha : a ≤ l.length
+  · rw [Nat.min_eq_left ha]
+    by_cases hb : b ≤ l.length
+    · rw [Nat.min_eq_left hb]
+    · rw [Nat.min_eq_right (by omega)]
+      by_cases h1 : i < l.length - a
+      · rw [if_pos h1, if_pos (by omega)]
+      · rw [if_neg h1]
+        by_cases h2 : i < b - a
+        · rw [if_pos h2]; exact (List.getElem?_eq_none (by omega)).symm
+        · rw [if_neg h2]
+  · rw [Nat.min_eq_right (show l.length ≤ a by omega)]
+    have h1 : l[l.length + i]? = none := List.getElem?_eq_none (by omega)
+    have h2 : l[a + i]? = none := List.getElem?_eq_none (by omega)
+    rw [h1, h2]; simp
+
+theorem labels_drop_take (l0 : Int) (n a k : Nat) :
+    ((labels l0 n).drop a).take k = labels (l0 + (a : Int)) (min k (n - a)) := by
+  apply List.ext_getElem?
+  intro i
+  rw [getElem?_drop_take, labels_getElem?, labels_getElem?]
+  by_cases h1 : i < k
+  · by_cases h2 : a + i < n
+    · rw [if_pos h1, if_pos h2, if_pos (by omega)]; congr 1; omega
+    · rw [if_pos h1, if_neg h2, if_neg (by omega)]
+  · rw [if_neg h1, if_neg (by omega)]
+
+/-! ## 3. `get`: the rows of the range, labelled with their row numbers -/
+
+/-- `dset[lo:hi]` for `0 ≤ lo` -/
+theorem pySlice_nat {α} (l : List α) (lo hi : Nat) :
+    (l.drop (pySliceIndices l.length (some (lo : Int)) (some (hi : Int))).1).take
+      ((pySliceIndices l.length (some (lo : Int)) (some (hi : Int))).2
+        - (pySliceIndices l.length (some (lo : Int)) (some (hi : Int))).1)
+    = (l.drop lo).take (hi - lo) := by
+  have h1 : (pySliceIndices l.length (some (lo : Int)) (some (hi : Int))).1 = min lo l.length := by
+    simp only [pySliceIndices, clampBound]
+    rw [if_neg (by omega)]
+    split <;> omega
+  have h2 : (pySliceIndices l.length (some (lo : Int)) (some (hi : Int))).2 = min hi l.length := by
+    simp only [pySliceIndices, clampBound]
+    rw [if_neg (by omega)]
+    split <;> omega
+  rw [h1, h2, drop_take_clamp]
+
+/-- the result of `get` in closed form: guards, then the plain row range -/
+theorem tableGet_nat (t : Stored) (lo hi : Nat) (fs : List String) (series : Bool) :
+    tableGet t lo (some (hi : Int)) fs series =
+      if !(fs.all fun f => (lookupCol t.cols f).isSome) then .error .key
+      else if !(((t.rows.drop lo).take (hi - lo)).all fun r => fs.all fun f => cellOk t r f) then .error .value
+      else if fs.isEmpty then .ok ⟨[], [], [], series⟩
+      else .ok ⟨fs, labels lo ((t.rows.drop lo).take (hi - lo)).length,
+                ((t.rows.drop lo).take (hi - lo)).map (fun r => fs.map (cell t r)), series⟩ := by
+  unfold tableGet
+  simp only [pySlice_nat]
+
+/-- **slice_rows** — for a range `lo ≤ hi ≤ len` and any non-empty list of existing columns (whose
+cells are decodable) `get` returns exactly the stored rows `lo, …, hi-1` (`drop lo |>.take (hi-lo)`),
+each projected on the requested columns in the requested order, labelled `lo, …, hi-1`. -/
+theorem slice_rows (t : Stored) (lo hi : Nat) (fs : List String) (series : Bool)
+    (hle : lo ≤ hi) (hhi : hi ≤ t.rows.length) (hfs : fs ≠ [])
+    (hcols : ∀ f ∈ fs, (lookupCol t.cols f).isSome = true)
+    (hcodes : ∀ r ∈ t.rows, ∀ f ∈ fs, cellOk t r f = true) :
+    tableGet t lo (some (hi : Int)) fs series =
+      .ok ⟨fs, labels lo (hi - lo),
+           ((t.rows.drop lo).take (hi - lo)).map (fun r => fs.map (cell t r)), series⟩ := by
+  rw [tableGet_nat]
+  have h1 : (fs.all fun f => (lookupCol t.cols f).isSome) = true := List.all_eq_true.mpr hcols
+  have h2 : (((t.rows.drop lo).take (hi - lo)).all fun r => fs.all fun f => cellOk t r f) = true := by
+    apply List.all_eq_true.mpr
+    intro r hr
+    apply List.all_eq_true.mpr
+    intro f hf
+    exact hcodes r (List.mem_of_mem_drop (List.mem_of_mem_take hr)) f hf
+  have h3 : fs.isEmpty = false := by cases fs <;> simp_all
+  have h4 : ((t.rows.drop lo).take (hi - lo)).length = hi - lo := by
+    rw [List.length_take, List.length_drop]; omega
+  simp [h1, h2, h3, h4]
+
+/-- position and encoding returned by `lookupCol` really are those of the (first) column of that name -/
+theorem lookupCol_spec (cols : List (String × Enc)) (f : String) (k : Nat) (e : Enc)
+    (h : lookupCol cols f = some (k, e)) : cols[k]? = some (f, e) := by
+  induction cols generalizing k with
+  | nil => simp [lookupCol] at h
+  | cons c cs ih =>
+    obtain ⟨c, e'⟩ := c
+    unfold lookupCol at h
+    by_cases hc : c = f
+    · simp only [hc, if_true, Option.some.injEq, Prod.mk.injEq] at h
+      obtain ⟨rfl, rfl⟩ := h
+      simp [hc]
+    · simp only [hc, if_false, Option.map_eq_some_iff] at h
+      obtain ⟨⟨k', e''⟩, hk, heq⟩ := h
+      simp only [Prod.mk.injEq] at heq
+      obtain ⟨rfl, rfl⟩ := heq
+      simpa using ih k' hk
+
+/-- a cell of a non-enum column is the stored cell … -/
+theorem cell_plain (t : Stored) (r : Row) (f : String) (k : Nat) (e : Enc) (v : Val)
+    (hk : lookupCol t.cols f = some (k, e)) (he : ∀ d, e ≠ .enum d) (hv : r[k]? = some v) :
+    cell t r f = v := by
+  unfold cell
+  rw [hk]
+  cases e with
+  | enum d => exact absurd rfl (he d)
+  | int => simp [List.getD_eq_getElem?_getD, hv]
+  | other => simp [List.getD_eq_getElem?_getD, hv]
+
+/-- … and of an enum column, the name whose code is stored -/
+theorem cell_enum (t : Stored) (r : Row) (f : String) (k : Nat) (d : List (String × Int)) (v : Val)
+    (hk : lookupCol t.cols f = some (k, .enum d)) (hv : r[k]? = some v) :
+    cell t r f = fromCode (categoriesOf d) v := by
+  unfold cell
+  rw [hk]
+  simp [List.getD_eq_getElem?_getD, hv]
+
+/-- cell `(k, j)` of the frame `slice_rows` describes is column `fs[j]` of stored row `lo + k` -/
+theorem slice_rows_cell (t : Stored) (lo hi : Nat) (fs : List String) (k j : Nat) (r : Row) (f : String)
+    (hk : k < hi - lo) (hr : t.rows[lo + k]? = some r) (hf : fs[j]? = some f) :
+    ((((t.rows.drop lo).take (hi - lo)).map (fun r => fs.map (cell t r)))[k]?).bind (·[j]?)
+      = some (cell t r f) := by
+  rw [List.getElem?_map, getElem?_drop_take, if_pos hk, hr]
+  simp [List.getElem?_map, hf]
+
+/-- non-vacuity: a three-row table with an enum column, a float column with a NaN and an integer
+column; rows 1..2 on two columns in swapped order -/
+example :
+    let t : Stored := ⟨[("chrom", .enum [("c0", 0), ("c1", 1)]), ("start", .int), ("weight", .other)],
+      [[.int 0, .int 0, .flt "0.5"], [.int 0, .int 10, .nan], [.int 1, .int 0, .flt "2.0"]]⟩
+    tableGet t 1 (some 3) ["weight", "chrom"] false
+      = .ok ⟨["weight", "chrom"], [1, 2], [[.nan, .str "c0"], [.flt "2.0", .str "c1"]], false⟩ := by
+  decide
+
+/-! ### a range is a part of the whole table -/
+
+theorem framePart_framePart_zero (f : Frame) (a b n : Nat) (hb : b ≤ n) :
+    framePart (framePart f 0 n) a b = framePart f a b := by
+  unfold framePart
+  simp only [List.drop_zero, Nat.sub_zero, Frame.mk.injEq, true_and, and_true]
+  constructor <;>
+  · apply List.ext_getElem?
+    intro i
+    rw [getElem?_drop_take, getElem?_drop_take, List.getElem?_take]
+    by_cases h : i < b - a
+    · rw [if_pos h, if_pos h, if_pos (by omega)]
+    · rw [if_neg h, if_neg h]
+
+/-- **a slice is the corresponding part of the whole table**: if reading everything succeeds with
+`W`, reading `[a, b)` succeeds with `W.iloc[a:b]` — same columns, labels `a..b-1`. -/
+theorem tableGet_part (t : Stored) (fs : List String) (series : Bool) (W : Frame) (a b : Nat)
+    (hW : tableGet t 0 (some (t.rows.length : Int)) fs series = .ok W) :
+    tableGet t a (some (b : Int)) fs series = .ok (framePart W a b) := by
+  have h0 := tableGet_nat t 0 t.rows.length fs series
+  rw [show ((0 : Nat) : Int) = 0 from rfl, hW] at h0
+  rw [tableGet_nat]
+  simp only [List.drop_zero, Nat.sub_zero, List.take_length] at h0
+  by_cases h1 : (fs.all fun f => (lookupCol t.cols f).isSome) = true
+  · by_cases h2 : (t.rows.all fun r => fs.all fun f => cellOk t r f) = true
+    · have h2' : (((t.rows.drop a).take (b - a)).all fun r => fs.all fun f => cellOk t r f) = true := by
+        apply List.all_eq_true.mpr
+        intro r hr
+        exact List.all_eq_true.mp h2 r (List.mem_of_mem_drop (List.mem_of_mem_take hr))
+      simp only [h1, h2, h2', Bool.not_true, Bool.false_eq_true, if_false] at h0 ⊢
+      by_cases h3 : fs.isEmpty = true
+      · simp only [h3, if_true, Except.ok.injEq] at h0 ⊢
+        subst h0
+        simp [framePart]
+      · simp only [h3, if_false, Except.ok.injEq, Bool.false_eq_true] at h0 ⊢
+        subst h0
+        simp only [framePart, Frame.mk.injEq, true_and, and_true]
+        constructor
+        · rw [labels_drop_take, List.length_take, List.length_drop]
+          congr 1 <;> omega
+        · rw [List.map_take, List.map_drop]
+    · simp [h1, h2] at h0
+  · simp [h1] at h0
+
+/-- labels and length of a whole-table read -/
+theorem tableGet_whole_shape (t : Stored) (fs : List String) (series : Bool) (W : Frame) (hfs : fs ≠ [])
+    (hW : tableGet t 0 (some (t.rows.length : Int)) fs series = .ok W) :
+    W.cols = fs ∧ W.rows.length = t.rows.length ∧ W.index = labels 0 t.rows.length := by
+  have h0 := tableGet_nat t 0 t.rows.length fs series
+  rw [show ((0 : Nat) : Int) = 0 from rfl, hW] at h0
+  simp only [List.drop_zero, Nat.sub_zero, List.take_length] at h0
+  have h3 : fs.isEmpty = false := by cases fs <;> simp_all
+  by_cases h1 : (fs.all fun f => (lookupCol t.cols f).isSome) = true
+  · by_cases h2 : (t.rows.all fun r => fs.all fun f => cellOk t r f) = true
+    · simp only [h1, h2, h3, Bool.not_true, Bool.false_eq_true, if_false, Except.ok.injEq] at h0
+      subst h0
+      simp
+    · simp [h1, h2] at h0
+  · simp [h1] at h0
+
+/-! ## 4. Selectors: a row key reads the part of the whole table it spells -/
+
+theorem mem_drop_take {α} {l : List α} {a k : Nat} {x : α} (h : x ∈ (l.drop a).take k) : x ∈ l :=
+  List.mem_of_mem_drop (List.mem_of_mem_take h)
+
+/-- the integer-chromosome post-processing of `api.bins` commutes with taking a part -/
+theorem binsDecode_part (t : Stored) (names : List String) (target : Option (String × Nat))
+    (W W' : Frame) (a b : Nat) (h : binsDecode t names target W = .ok W') :
+    binsDecode t names target (framePart W a b) = .ok (framePart W' a b) := by
+  unfold binsDecode at h ⊢
+  match target with
+  | none => simp only [Except.ok.injEq] at h; rw [h]
+  | some (name, j) =>
+    simp only at h ⊢
+    split at h
+    · by_cases hg : (W.rows.all fun r => codeOk names (r.getD j .nan)) = true
+      · have hg' : ((framePart W a b).rows.all fun r => codeOk names (r.getD j .nan)) = true := by
+          apply List.all_eq_true.mpr
+          intro r hr
+          exact List.all_eq_true.mp hg r (mem_drop_take hr)
+        simp only [hg, hg', Bool.not_true, Bool.false_eq_true, if_false, Except.ok.injEq] at h ⊢
+        subst h
+        simp only [framePart, Frame.mk.injEq, true_and, and_true]
+        rw [List.map_take, List.map_drop]
+      · rw [Bool.not_eq_true] at hg
+        rw [hg] at h
+        simp at h
+    · simp only [Except.ok.injEq] at h
+      subst h
+      rfl
+
+theorem binsGet_part (t : Stored) (names : List String) (fields : Fields) (W : Frame) (a b : Nat)
+    (hW : binsGet t names 0 (some (t.rows.length : Int)) fields = .ok W) :
+    binsGet t names a (some (b : Int)) fields = .ok (framePart W a b) := by
+  simp only [binsGet] at hW ⊢
+  cases h : tableGet t 0 (some (t.rows.length : Int)) (fields.resolve binsStd t.names).1
+      (fields.resolve binsStd t.names).2 with
+  | error e => rw [h] at hW; simp at hW
+  | ok out =>
+    rw [h] at hW
+    rw [tableGet_part t _ _ out a b h]
+    exact binsDecode_part t names _ out W a b hW
+
+/-- the table a selector reads and whether it annotates -/
+def srcLen : Src → Nat
+  | .chroms t => t.rows.length
+  | .bins t _ => t.rows.length
+  | .pixels t _ _ => t.rows.length
+
+def srcJoin : Src → Bool
+  | .pixels _ _ j => j
+  | _ => false
+
+theorem getRows_eq (s : Selector) (k : RowKey) :
+    s.getRows k = match processKey s.nmax k with
+      | .error e => .error e
+      | .ok p => s.slice p.1 p.2 := by
+  simp only [Selector.getRows, selectorGetItem]
+  cases h : processKey s.nmax k with
+  | error e => simp
+  | ok p =>
+    obtain ⟨lo, hi⟩ := p
+    simp only
+    cases h2 : s.slice lo hi <;> simp
+
+theorem getRows_whole (s : Selector) :
+    s.getRows (.slice none none none) = s.slice 0 (s.nmax : Int) := by
+  rw [getRows_eq]; rfl
+
+theorem slice_part (s : Selector) (W : Frame) (a b : Nat) (hn : s.nmax = srcLen s.src)
+    (hj : srcJoin s.src = false) (hW : s.slice 0 (s.nmax : Int) = .ok W) :
+    s.slice a b = .ok (framePart W a b) := by
+  obtain ⟨src, fields, nmax⟩ := s
+  simp only at hn hj hW ⊢
+  subst hn
+  cases src with
+  | chroms t => exact tableGet_part t _ _ W a b hW
+  | bins t names => exact binsGet_part t names fields W a b hW
+  | pixels t bt join =>
+    simp only [srcJoin] at hj
+    subst hj
+    simp only [Selector.slice, pixelsGet, srcLen] at hW ⊢
+    cases h : tableGet t 0 (some (t.rows.length : Int)) (fields.resolve pixelsStd t.names).1
+        (fields.resolve pixelsStd t.names).2 with
+    | error e => rw [h] at hW; simp at hW
+    | ok out =>
+      rw [h] at hW
+      simp only [Bool.false_eq_true, if_false, Except.ok.injEq] at hW
+      subst hW
+      rw [tableGet_part t _ _ out a b h]
+      simp
+
+/-- **selector_slice_rows** — on a chromosome, bin or (un-joined) pixel selector with *any* column
+argument, every slice spelling with bounds in `[-n, n] ∪ {None}` returns the rows `a..b-1` of the
+whole table `W = sel[:]`, `(a, b) = slice(lo, hi).indices(n)`, with the labels of `W` — which are the
+row numbers (`selector_whole_labels`). -/
+theorem selector_slice_rows (s : Selector) (W : Frame) (lo hi : Option Int)
+    (hn : s.nmax = srcLen s.src) (hj : srcJoin s.src = false)
+    (hW : s.getRows (.slice none none none) = .ok W)
+    (hlo : InDom s.nmax lo) (hhi : InDom s.nmax hi) :
+    s.getRows (.slice lo hi none) =
+      .ok (framePart W (pySliceIndices s.nmax lo hi).1 (pySliceIndices s.nmax lo hi).2) := by
+  rw [getRows_whole] at hW
+  rw [getRows_eq, processKey_slice s.nmax lo hi hlo hhi]
+  exact slice_part s W _ _ hn hj hW
+
+/-- a scalar `k ∈ [-n, n)` returns the single row `k mod n` of the whole table -/
+theorem selector_scalar_row (s : Selector) (W : Frame) (k : Int)
+    (hn : s.nmax = srcLen s.src) (hj : srcJoin s.src = false)
+    (hW : s.getRows (.slice none none none) = .ok W)
+    (h1 : -(s.nmax : Int) ≤ k) (h2 : k < s.nmax) :
+    s.getRows (.scalar k) =
+      .ok (framePart W (if k < 0 then k + s.nmax else k).toNat ((if k < 0 then k + s.nmax else k).toNat + 1)) := by
+  rw [getRows_whole] at hW
+  rw [getRows_eq]
+  simp only [processKey]
+  obtain ⟨hk, hk0, hkn⟩ := (processScalar_spec s.nmax k).1 h1 h2
+  rw [hk]
+  simp only
+  have := slice_part s W (if k < 0 then k + s.nmax else k).toNat
+    ((if k < 0 then k + s.nmax else k).toNat + 1) hn hj hW
+  rw [← this]
+  congr 1 <;> (simp only [Int.natCast_add, Int.toNat_of_nonneg hk0]; try rfl)
+
+/-! ## 5. A column selection never changes which rows come back -/
+
+theorem colIdx_some (cols : List String) (c : String) (k : Nat) (h : colIdx cols c = some k) :
+    cols[k]? = some c := by
+  induction cols generalizing k with
+  | nil => simp [colIdx] at h
+  | cons x xs ih =>
+    unfold colIdx at h
+    by_cases hx : x = c
+    · simp only [hx, if_true, Option.some.injEq] at h
+      subst h; simp [hx]
+    · simp only [hx, if_false, Option.map_eq_some_iff] at h
+      obtain ⟨k', hk', rfl⟩ := h
+      simpa using ih k' hk'
+
+theorem colIdx_of_mem (cols : List String) (c : String) (h : c ∈ cols) :
+    ∃ k, colIdx cols c = some k := by
+  induction cols with
+  | nil => simp at h
+  | cons x xs ih =>
+    unfold colIdx
+    by_cases hx : x = c
+    · exact ⟨0, by simp [hx]⟩
+    · have : c ∈ xs := by
+        cases h with
+        | head => exact absurd rfl hx
+        | tail _ h' => exact h'
+      obtain ⟨k, hk⟩ := ih this
+      exact ⟨k + 1, by simp [hx, hk]⟩
+
+/-- the projected cell: position `colIdx all c` of the row read on `all` is the cell of column `c` -/
+theorem project_cell (all : List String) (g : String → Val) (c : String) (h : c ∈ all) :
+    (all.map g).getD ((colIdx all c).getD 0) .nan = g c := by
+  obtain ⟨k, hk⟩ := colIdx_of_mem all c h
+  have := colIdx_some all c k hk
+  rw [hk, Option.getD_some, List.getD_eq_getElem?_getD, List.getElem?_map, this]
+  rfl
+
+/-- `get` on a sub-list of columns is the projection of `get` on the full list -/
+theorem tableGet_project (t : Stored) (lo : Int) (hi : Option Int) (all fs : List String) (F : Frame)
+    (hfs : fs ≠ []) (hsub : ∀ f ∈ fs, f ∈ all)
+    (hF : tableGet t lo hi all false = .ok F) :
+    tableGet t lo hi fs false = F.project fs := by
+  unfold tableGet at hF ⊢
+  simp only at hF ⊢
+  generalize hraw : (t.rows.drop (pySliceIndices t.rows.length (some lo) hi).1).take
+    ((pySliceIndices t.rows.length (some lo) hi).2 - (pySliceIndices t.rows.length (some lo) hi).1) = raw at hF ⊢
+  have hall : all ≠ [] := by
+    intro h; cases fs with
+    | nil => exact hfs rfl
+    | cons f _ => have := hsub f (by simp); simp [h] at this
+  have e1 : all.isEmpty = false := by cases all <;> simp_all
+  have e2 : fs.isEmpty = false := by cases fs <;> simp_all
+  by_cases h1 : (all.all fun f => (lookupCol t.cols f).isSome) = true
+  · by_cases h2 : (raw.all fun r => all.all fun f => cellOk t r f) = true
+    · simp only [h1, h2, e1, Bool.not_true, Bool.false_eq_true, if_false, Except.ok.injEq] at hF
+      have h1' : (fs.all fun f => (lookupCol t.cols f).isSome) = true :=
+        List.all_eq_true.mpr fun f hf => List.all_eq_true.mp h1 f (hsub f hf)
+      have h2' : (raw.all fun r => fs.all fun f => cellOk t r f) = true :=
+        List.all_eq_true.mpr fun r hr => List.all_eq_true.mpr fun f hf =>
+          List.all_eq_true.mp (List.all_eq_true.mp h2 r hr) f (hsub f hf)
+      simp only [h1', h2', e2, Bool.not_true, Bool.false_eq_true, if_false]
+      subst hF
+      unfold Frame.project
+      have h3 : (fs.all fun c => (colIdx all c).isSome) = true :=
+        List.all_eq_true.mpr fun c hc => by
+          obtain ⟨k, hk⟩ := colIdx_of_mem all c (hsub c hc); simp [hk]
+      simp only [h3, Bool.not_true, Bool.false_eq_true, if_false, Except.ok.injEq, Frame.mk.injEq,
+        true_and, and_true, List.map_map]
+      apply List.map_congr_left
+      intro r _
+      apply List.map_congr_left
+      intro c hc
+      exact (project_cell all (cell t r) c (hsub c hc)).symm
+    · rw [Bool.not_eq_true] at h2; rw [h2] at hF; simp [h1] at hF
+  · rw [Bool.not_eq_true] at h1; rw [h1] at hF; simp at hF
+
+/-- a Series read is the one-column frame read, flagged -/
+theorem tableGet_series (t : Stored) (lo : Int) (hi : Option Int) (fs : List String) :
+    tableGet t lo hi fs true = (tableGet t lo hi fs false).map fun fr => { fr with series := true } := by
+  unfold tableGet
+  simp only
+  split
+  · rfl
+  · split
+    · rfl
+    · split <;> rfl
+
+/-- the rows `dset[lo:hi]` reads -/
+abbrev pyRaw (t : Stored) (lo : Int) (hi : Option Int) : List Row :=
+  (t.rows.drop (pySliceIndices t.rows.length (some lo) hi).1).take
+    ((pySliceIndices t.rows.length (some lo) hi).2 - (pySliceIndices t.rows.length (some lo) hi).1)
+
+theorem tableGet_ok_form (t : Stored) (lo : Int) (hi : Option Int) (fs : List String) (series : Bool)
+    (F : Frame) (hfs : fs ≠ []) (h : tableGet t lo hi fs series = .ok F) :
+    F = ⟨fs, labels lo (pyRaw t lo hi).length, (pyRaw t lo hi).map (fun r => fs.map (cell t r)), series⟩ := by
+  unfold tableGet at h
+  simp only at h
+  have e2 : fs.isEmpty = false := by cases fs <;> simp_all
+  split at h
+  · simp at h
+  · split at h
+    · simp at h
+    · simp only [e2, Bool.false_eq_true, if_false, Except.ok.injEq] at h
+      exact h.symm
+
+theorem colIdx_none_not_mem (cols : List String) (c : String) (h : colIdx cols c = none) : c ∉ cols := by
+  intro hm
+  obtain ⟨k, hk⟩ := colIdx_of_mem cols c hm
+  rw [h] at hk; cases hk
+
+/-- projecting a row whose `chrom` cell (position 0 of the full list) was replaced: `chrom` not asked -/
+theorem project_set_none (rest fs : List String) (g : String → Val) (x : Val)
+    (hsub : ∀ c ∈ fs, c ∈ "chrom" :: rest) (hj : colIdx fs "chrom" = none) :
+    fs.map (fun c => ((("chrom" :: rest).map g).set 0 x).getD ((colIdx ("chrom" :: rest) c).getD 0) .nan)
+      = fs.map g := by
+  apply List.map_congr_left
+  intro c hc
+  have hne : c ≠ "chrom" := fun h => colIdx_none_not_mem fs "chrom" hj (h ▸ hc)
+  obtain ⟨k, hk⟩ := colIdx_of_mem _ c (hsub c hc)
+  have hk' := colIdx_some _ c k hk
+  have hk0 : k ≠ 0 := by
+    intro h0; subst h0
+    simp only [List.getElem?_cons_zero, Option.some.injEq] at hk'
+    exact hne hk'.symm
+  rw [hk, Option.getD_some, List.getD_eq_getElem?_getD, List.getElem?_set, if_neg (Ne.symm hk0),
+    List.getElem?_map, hk']
+  rfl
+
+/-- … and `chrom` asked at position `j` -/
+theorem project_set_some (rest fs : List String) (g : String → Val) (x : Val) (j : Nat)
+    (hsub : ∀ c ∈ fs, c ∈ "chrom" :: rest) (hnd : fs.Nodup) (hj : colIdx fs "chrom" = some j) :
+    fs.map (fun c => ((("chrom" :: rest).map g).set 0 x).getD ((colIdx ("chrom" :: rest) c).getD 0) .nan)
+      = (fs.map g).set j x := by
+  have hjc := colIdx_some fs "chrom" j hj
+  have hjlt : j < fs.length := by
+    rcases Nat.lt_or_ge j fs.length with h | h
+    · exact h
+    · rw [List.getElem?_eq_none h] at hjc; cases hjc
+  apply List.ext_getElem?
+  intro p
+  rw [List.getElem?_map, List.getElem?_set, List.getElem?_map]
+  rcases Nat.lt_or_ge p fs.length with hp | hp
+  · obtain ⟨c, hc⟩ : ∃ c, fs[p]? = some c := ⟨fs[p], List.getElem?_eq_getElem hp⟩
+    have hcm : c ∈ fs := List.mem_of_getElem? hc
+    rw [hc]
+    simp only [Option.map_some, List.length_map]
+    by_cases hcc : c = "chrom"
+    · subst hcc
+      have : p = j := (List.getElem?_inj hp hnd (hc.trans hjc.symm))
+      subst this
+      simp [colIdx, hjlt]
+    · have hpj : j ≠ p := by
+        intro h; subst h; rw [hjc] at hc; exact hcc (Option.some.inj hc).symm
+      rw [if_neg hpj]
+      obtain ⟨k, hk⟩ := colIdx_of_mem _ c (hsub c hcm)
+      have hk' := colIdx_some _ c k hk
+      have hk0 : k ≠ 0 := by
+        intro h0; subst h0
+        simp only [List.getElem?_cons_zero, Option.some.injEq] at hk'
+        exact hcc hk'.symm
+      rw [hk, Option.getD_some, List.getD_eq_getElem?_getD, List.getElem?_set, if_neg (Ne.symm hk0),
+        List.getElem?_map, hk']
+      rfl
+  · rw [List.getElem?_eq_none hp]
+    have : ¬ j = p := by omega
+    simp [this]
 
 end Cooler.C14
